@@ -311,3 +311,64 @@ def wiring_trace(rng, nops=25, ops=None, nv=None, kinds=None):
     w = WiringWorld(nv, kinds)
     ops = ops if ops is not None else wiring_random_ops(rng, w, nops)
     return {"hdr": {"kind": "var_wiring", **w.hdr()}, "ev": [w.op(o) for o in ops]}
+
+
+# ---- Chain: EpochChainManager / ListEpochChain thinning and combination -----------------
+def chain_trace(rng, apply_thinning=True, nops=25):
+    from liesel.goose.chain import EpochChainManager
+
+    mgr = EpochChainManager(apply_thinning=apply_thinning)
+    ev = []
+    seen = []
+    nchains = rng.choice([1, 2, 3])
+
+    def chunk(e, lo, size):
+        # item number (1-based position in the epoch's stream) carried in two differently shaped leaves
+        idx = np.arange(lo + 1, lo + size + 1)
+        a = np.broadcast_to(idx[None, :], (nchains, size)).astype(np.int32)
+        b = np.broadcast_to(idx[None, :, None], (nchains, size, 2)).astype(np.float32)
+        return {"a": jnp.asarray(a), "b": jnp.asarray(b), "e": jnp.full((nchains, size), e, jnp.int32)}
+
+    def items(opt):
+        if opt.is_none():
+            return True, [], [], True
+        t = opt.unwrap()
+        a, b, e = np.asarray(t["a"]), np.asarray(t["b"]), np.asarray(t["e"])
+        agree = bool((a[:, :, None] == b).all() and (a == a[0]).all() and a.shape[:2] == e.shape[:2] == b.shape[:2])
+        return False, [int(x) for x in a[0]], [int(x) for x in e[0]], agree
+
+    for _ in range(nops):
+        k = rng.random()
+        if not seen or (k < 0.15 and len(seen) < 4):
+            th = rng.choice([1, 1, 2, 3, 4])
+            mgr.advance_epoch(EpochConfig(EpochType.POSTERIOR, 100, th, None))
+            seen.append(0)
+            ev.append({"ev": "advance", "thin": th, "current": len(mgr.get_epochs()), "nepochs": len(mgr._chains)})
+        elif k < 0.6:
+            size = rng.choice([0, 1, 1, 2, 3, 4, 5, 7])
+            e = len(seen)
+            mgr.append(chunk(e, seen[-1], size))
+            seen[-1] += size
+            ev.append({"ev": "append", "size": size})
+        elif k < 0.8:
+            e = rng.randint(1, len(seen))
+            none, it, _, agree = items(mgr.get_specific_chain(e - 1).get() if rng.random() < 0.7 or e != len(seen)
+                                       else mgr.get_current_chain().get())
+            ev.append({"ev": "get", "e": e, "none": none, "items": it, "leaves_agree": agree})
+        else:
+            mode = rng.choice(["combine", "all", "filtered"])
+            if mode == "combine":
+                es = [rng.randint(1, len(seen)) for _ in range(rng.randint(0, 3))]
+                es = list(dict.fromkeys(es)) if rng.random() < 0.7 else es
+                opt = mgr.combine([e - 1 for e in es])
+            elif mode == "all":
+                es = list(range(1, len(seen) + 1))
+                opt = mgr.combine_all()
+            else:
+                ths = [c.thinning for c in mgr.get_epochs()]
+                pick = rng.choice(sorted(set(ths)))
+                es = [i + 1 for i, t in enumerate(ths) if t == pick]
+                opt = mgr.combine_filtered(lambda c: c.thinning == pick)
+            none, it, eps, _ = items(opt)
+            ev.append({"ev": "combine", "mode": mode, "epochs": es, "none": none, "items": [[e, i] for e, i in zip(eps, it)]})
+    return {"hdr": {"kind": "chain", "apply_thinning": apply_thinning}, "ev": ev}
